@@ -165,4 +165,38 @@ def run_repeat(prog):
 def run_chords(prog):
     r = run(prog, only=["kanata_parser::cfg::find_chords_coords", "kanata_parser::cfg::fill_chords"])
     r.floor = 14
+    # The two walkers stop at a chord placeholder and never look inside a chord group's own actions. That is only
+    # complete if such actions cannot contain chord actions: both places that parse them (defchords groups,
+    # defchordsv2 entries) reject an action for which contains_chord_action() is true, and that predicate itself
+    # descends into every nested-action field (it is one of the walkers checked above).
+    from kq.core import callee_name
+    CCA = "kanata_parser::cfg::contains_chord_action"
+    r2 = run(prog, only=[CCA])
+    r.instances += r2.instances
+    r.violations += r2.violations
+    r.obligations += r2.obligations
+    r.discharged += r2.discharged
+    for nm in ("kanata_parser::cfg::resolve_chord_groups", "kanata_parser::cfg::chord::parse_single_chord"):
+        f = prog.fn(nm)
+        ok = False
+        for g in [f] + prog.closures_of(f):
+            for bi, t in g.calls():
+                if callee_name(t) != CCA or t["t"] is None:
+                    continue
+                tt = g.term(t["t"])
+                if tt["k"] == "switch":
+                    true_t = [tb for v, tb in tt["ts"] if v == 1] or ([tt["o"]] if any(v == 0 for v, _ in tt["ts"]) else [])
+                    # the true edge ends in an Err(..) / `?`: it never reaches an Ok construction of the action
+                    if true_t:
+                        reach = g.reach_from(true_t[0], avoid=[t["t"]])
+                        builds_ok = any(st["rv"]["k"] == "agg" and st["rv"].get("adt") == "core::result::Result" and st["rv"].get("v") == "Ok"
+                                        for b in reach for st in g.stmts(b) if st["k"] == "assign")
+                        if not builds_ok:
+                            ok = True
+        r.inst("nested-chord-rejected/" + nm.split("::")[-1], ok=ok)
+        r.oblige(ok)
+        if not ok:
+            r.viol("nested-chord-rejected/" + nm.split("::")[-1], f.loc,
+                   "%s accepts an action that contains a (chord ..) action: the chord walkers never look inside chord definitions, so "
+                   "that chord is never connected to its group and does nothing" % nm.split("::")[-1])
     return r
